@@ -80,12 +80,14 @@ func c12Module(module string, preferKind int) {
 	vr.Reach("end")
 }
 
-func Verif_C12_Generic()   { c12Module(constants.GenericModule, gStr) }
-func Verif_C12_String()    { gByteStrings = 2; c12Module(constants.StringModule, gStr) }
-func Verif_C12_Hash()      { c12Module(constants.HashModule, gHash) }
-func Verif_C12_List()      { c12Module(constants.ListModule, gList) }
-func Verif_C12_Set()       { c12Module(constants.SetModule, gSet) }
-func Verif_C12_SortedSet() { c12Module(constants.SortedSetModule, gZSet) }
+func Verif_C12_Generic()     { c12Module(constants.GenericModule, gStr) }
+func Verif_C12_String()      { gByteStrings = 2; c12Module(constants.StringModule, gStr) }
+func Verif_C12_Hash()        { c12Module(constants.HashModule, gHash) }
+func Verif_C12_List()        { c12Module(constants.ListModule, gList) }
+func Verif_C12_Set()         { c12Module(constants.SetModule, gSet) }
+func Verif_C12_SortedSet_A() { gCmdPart, gCmdParts = 0, 3; c12Module(constants.SortedSetModule, gZSet) }
+func Verif_C12_SortedSet_B() { gCmdPart, gCmdParts = 1, 3; c12Module(constants.SortedSetModule, gZSet) }
+func Verif_C12_SortedSet_C() { gCmdPart, gCmdParts = 2, 3; c12Module(constants.SortedSetModule, gZSet) }
 
 // Verif_C12_ByteFidelity: a stored value that may contain CR, LF or NUL (or be empty) comes back
 // equal through every reader of its type.
